@@ -146,6 +146,18 @@ pub struct LocalSpans {
     inner: HashMap<RawSpanId, Id>,
 }
 
+#[cfg(tracing_toolbox_verif)]
+impl LocalSpans {
+    /// Verification hook: `(guest span ID, host span ID)` pairs contained in this map.
+    #[doc(hidden)]
+    pub fn verif_entries(&self) -> Vec<(RawSpanId, u64)> {
+        self.inner
+            .iter()
+            .map(|(id, local_id)| (*id, local_id.into_u64()))
+            .collect()
+    }
+}
+
 /// Error processing a [`TracingEvent`] by a [`TracingEventReceiver`].
 #[derive(Debug)]
 #[non_exhaustive]
@@ -590,6 +602,14 @@ impl TracingEventReceiver {
         self.current_execution.finalize(&local_spans);
         (spans, local_spans)
     }
+}
+
+#[cfg(tracing_toolbox_verif)]
+#[doc(hidden)]
+pub mod verif {
+    //! Verification hooks for the process-wide arena.
+
+    pub use super::arena::{verif_arena_stats, verif_set_yield};
 }
 
 impl Drop for TracingEventReceiver {
